@@ -8,7 +8,7 @@
    and, as SPECIFICATIONS OF THE CONSUMERS, four readers: an Emacs-Lisp lexer, an RFC 4180 csv
    reader, a backslash-escape csv reader, and an XML character-data decoder.
    Characters are byte codes; a string is `str = list Z`.  Definitions only. *)
-From LedgerV Require Import Base.Prelude Gen.CsvFormat.
+From LedgerV Require Import Base.Prelude Gen.CsvFormat Gen.PayeeRule.
 Local Open Scope Z_scope.
 
 (* byte codes used below:  10 newline  32 space  34 dquote  35 #  38 &  39 '  40 (  41 )  44 ,  45 -  47 /
@@ -197,11 +197,40 @@ Definition payee_from_tag (x : xact) (p : post) : str :=
 Definition payee_at_parse (x : xact) (p : post) : str :=
   payee_tag (build_meta (p_meta_inline p)) (build_meta (x_meta x)).
 
+(* textual.cc parse_xact, trailing-note branch, under PayeeFollowsLaterTags: each note line after
+   the posting is appended (its tags set), and when that changed payee_from_tag() to a non-empty
+   value the stored payee is replaced.  `pm` is the posting's metadata so far, `cur` the stored
+   payee ([] = none stored).  One entry at a time: a line holds one valued entry or bare tags, so
+   stepping per entry or per line stores the same payees. *)
+Fixpoint payee_steps (xm pm : metamap) (cur : str) (later : list mentry) : str :=
+  match later with
+  | [] => cur
+  | e :: r =>
+      let before := payee_tag pm xm in
+      let pm' := meta_insert (fst (fst e)) (snd (fst e)) (norm_value (snd e)) pm in
+      let after := payee_tag pm' xm in
+      payee_steps xm pm'
+        (if negb (is_nil after) && negb (str_eqb after before) then after else cur) r
+  end.
+
+(* the payee stored on the posting when the whole transaction has been read *)
+Definition payee_stored (r : payee_rule) (x : xact) (p : post) : str :=
+  match r with
+  | PayeeFixedAtPostingLine => payee_at_parse x p
+  | PayeeFollowsLaterTags =>
+      payee_steps (build_meta (x_meta x)) (build_meta (p_meta_inline p)) (payee_at_parse x p)
+                  (p_meta_later p)
+  | PayeeRuleUnrecognised => []
+  end.
+
 (* post.cc post_t::payee(): the stored payee, else the tag, else the transaction's payee *)
-Definition post_payee (x : xact) (p : post) : str :=
-  if is_nil (payee_at_parse x p) then
+Definition post_payee_rule (r : payee_rule) (x : xact) (p : post) : str :=
+  if is_nil (payee_stored r x p) then
     (if is_nil (payee_from_tag x p) then x_payee x else payee_from_tag x p)
-  else payee_at_parse x p.
+  else payee_stored r x p.
+
+(* the rule of the current source (Gen/PayeeRule.v, regenerated from textual.cc on every run) *)
+Definition post_payee (x : xact) (p : post) : str := post_payee_rule src_payee_rule x p.
 
 (* ------------------------------------------------------------------------------------------ *)
 (* emacs (emacs.cc:41-111, emacs.h:69-73)                                                      *)
